@@ -6,3 +6,4 @@
 //! * [`sched`] — cooperative scheduler points for deterministic thread schedules.
 //! * [`facade`] — thin wrappers exposing crate-private storage internals.
 pub mod io;
+pub mod sched;
